@@ -106,6 +106,22 @@ def check(ctx: Ctx) -> None:
     if not ok:
         ctx.violation('C11.a', 'IASolverBaseClass.calc_Q', 'does not pass (k, self.full_F) to the channel object', fn.path, fn.lineno,
                       operand='argument')
+    # channel side: the covariance/SINR code obtains every block through the scaled accessors (H, big_H, get_Hkl, get_Hk*)
+    RAW = {'_H_no_pathloss', '_big_H_no_pathloss', '_H_with_pathloss', '_big_H_with_pathloss', '_pathloss_matrix', '_pathloss_big_matrix'}
+    for cname in ('MultiUserChannelMatrix', 'MultiUserChannelMatrixExtInt'):
+        c = M.cls(cname)
+        for fn in c.methods.values():
+            if 'calc' not in fn.name or fn.self_name is None:
+                continue
+            raw = [(n.attr, n.lineno) for n in ast.walk(fn.node) if isinstance(n, ast.Attribute) and isinstance(n.ctx, ast.Load)
+                   and is_self_attr(n, fn.self_name) in RAW]
+            ctx.instance('C11.a', fn.qualname)
+            ctx.obligation('C11.a', fn.qualname, not raw, {'raw_reads': raw} if raw else None, nontrivial=bool(raw))
+            for a, line in raw:
+                ctx.violation('C11.a', fn.qualname, 'reads the raw attribute self.%s instead of the path-loss-scaled accessors '
+                              '(H/big_H/get_Hkl/get_Hk): the reported covariance/SINR ignores the current path loss' % a,
+                              fn.path, line, operand=a)
+    _check_stream_domains(ctx)
     _check_sums(ctx)
     _check_kinds(ctx)
 
@@ -154,6 +170,10 @@ def _check_sums(ctx: Ctx) -> None:
               and norm(n.targets[0].value) == 'Bkl_all_l']
         ok = False
         detail = {}
+        names = {n.id for x in st for n in ast.walk(x.value) if isinstance(n, ast.Name)}
+        if len(st) != 1 or not {'first_part', 'second_part'} <= names:
+            # the function was restructured: a differently shaped but correct computation cannot be told from a wrong one
+            ctx.error('C11.b: %s no longer stores B_kl as a combination of first_part and second_part (cannot tell)' % q)
         if len(st) == 1:
             e = st[0].value
             s = norm(e).replace(' ', '')
@@ -184,6 +204,56 @@ def _check_sums(ctx: Ctx) -> None:
             ctx.violation('C11.b', q, 'desired-signal term does not use the direct channel (k, k) with one stream index l for precoder '
                           'column / filter row / B_kl (calls %s, slices %s)' % ([norm(c) for c in calls], cols), fn.path, fn.lineno,
                           operand='desired')
+
+
+def _check_stream_domains(ctx: Ctx) -> None:
+    """C11.d: a loop over the streams of one user must take its bound from THAT user's stream count."""
+    M = ctx.model
+    ctx.rule('C11.d', 'stream loops: the user whose stream count bounds the loop is the user whose precoder/equivalent-channel '
+                      'columns the loop variable selects', floor=3)
+    funcs = []
+    for path, cname in ((MU, 'MultiUserChannelMatrix'), (MU, 'MultiUserChannelMatrixExtInt'), (IA, 'IASolverBaseClass')):
+        c = M.cls(cname)
+        funcs += [f for f in c.methods.values() if 'SINR' in f.name or 'Bkl' in f.name]
+    for fn in funcs:
+        loc = _locals(fn)
+
+        def resolve(e, depth=0):
+            if isinstance(e, ast.Name) and e.id in loc and len(loc[e.id]) == 1 and not isinstance(loc[e.id][0], ast.AugAssign) and depth < 4:
+                return resolve(loc[e.id][0], depth + 1)
+            return e
+
+        def user_of(e):
+            """Name of the user index of a per-user container access inside e (first `X[name]` with a plain Name index)."""
+            e = resolve(e)
+            for n in ast.walk(e):
+                if isinstance(n, ast.Subscript) and isinstance(n.slice, ast.Name):
+                    return n.slice.id
+            return None
+        loops = [n for n in ast.walk(fn.node) if isinstance(n, ast.For) and isinstance(n.target, ast.Name)
+                 and isinstance(n.iter, ast.Call) and norm(n.iter.func) == 'range' and len(n.iter.args) == 1]
+        for l in loops:
+            v = l.target.id
+            bu = user_of(l.iter.args[0])
+            cols = []
+            for n in ast.walk(l):
+                if isinstance(n, ast.Subscript) and isinstance(n.slice, ast.Tuple) and any(
+                        isinstance(e, ast.Slice) and e.lower is not None and norm(e.lower) == v for e in n.slice.elts):
+                    cols.append(n)
+            if not cols:
+                continue
+            construct = '%s:for %s in range(%s)' % (fn.qualname, v, norm(l.iter.args[0]))
+            ctx.instance('C11.d', construct)
+            bad = []
+            for c_ in cols:
+                au = user_of(c_.value)
+                if bu is not None and au is not None and au != bu:
+                    bad.append((norm(c_)[:40], au))
+            ctx.obligation('C11.d', construct, not bad, {'bound_user': bu, 'column_accesses': [norm(c_)[:40] for c_ in cols], 'mismatch': bad})
+            for acc, au in bad:
+                ctx.violation('C11.d', fn.qualname, 'the loop over streams is bounded by the stream count of user `%s` but selects columns of '
+                              'user `%s` (`%s`): streams beyond the first user\'s count are silently dropped when users have different '
+                              'numbers of streams' % (bu, au, acc), fn.path, l.lineno, operand='stream-domain')
 
 
 # ---------------------------------------------------------------------------------------------
